@@ -371,3 +371,33 @@ def pyppmd_decoder_crashes_alone(chain, stream, block, chunk) -> bool:
         except subprocess.TimeoutExpired:
             return False
     return p.returncode < 0 and -p.returncode in (signal.SIGSEGV, signal.SIGABRT, signal.SIGBUS)
+
+
+def inflate64_faulty(chain, pieces) -> bool:
+    """True when the third-party Deflate64 codec (inflate64), driven directly and alone (through pybcj when a branch
+    filter is in front), does not give back what it was fed when it is fed these very pieces one deflate() call each.
+    Classification only (key 'codec-library/inflate64-roundtrip')."""
+    if not any(c["f"] == "DEFLATE64" for c in chain):
+        return False
+    import bcj
+    import inflate64
+
+    front = [c["f"] for c in chain if c["f"] in G.BCJ]
+    enc_cls = {"X86": bcj.BCJEncoder, "ARM": bcj.ARMEncoder, "ARMTHUMB": bcj.ARMTEncoder, "POWERPC": bcj.PPCEncoder, "SPARC": bcj.SparcEncoder}
+    try:
+        be = enc_cls[front[0]]() if front and front[0] in enc_cls else None
+        c = inflate64.Deflater()
+        fed = bytearray()
+        packed = bytearray()
+        for piece in pieces:
+            x = be.encode(piece) if be else piece
+            fed += x
+            packed += c.deflate(x)
+        if be:
+            x = be.flush()
+            fed += x
+            packed += c.deflate(x)
+        packed += c.flush()
+        return inflate64.Inflater().inflate(bytes(packed)) != bytes(fed)
+    except Exception:
+        return True
